@@ -212,11 +212,38 @@ def run_case(case, sc):
         probes = rng.sample(probes, 40)
     if not probes:
         return {"status": "held", "key": None}
+    # loop variables of top-level `for` statements: eval-up-to on the variable gives the first element
+    bind_pos = {b[0]: (b[2], b[3]) for b in p.binders if b[4] == "def" and b[5] == "for"}
+    for_probes = []
+
+    def find_for(n, ok):
+        if isinstance(n, dict):
+            if n.get("k") == "lambda":
+                return
+            if n.get("k") == "for" and "v" in n["dest"] and n["dest"]["v"][1] in bind_pos and id(n["e"]) in ref["trace"]:
+                lst = ref["trace"][id(n["e"])]
+                if isinstance(lst, list) and lst and n["dest"]["v"][0] != "_":
+                    for_probes.append((n, bind_pos[n["dest"]["v"][1]], interp.show(lst[0])))
+            for v in n.values():
+                find_for(v, ok)
+        elif isinstance(n, list):
+            for v in n:
+                find_for(v, ok)
+    find_for(pr["main"], True)
+    for_probes = for_probes[:6]
     path = sc.file(src)
-    reqs = [core.run_req(src, 1, path)] + [{"method": "eval_up_to", "path": path, "src": src, "offset": off, "id": 100 + i}
-                                           for i, (_, _, _, off) in enumerate(probes)]
+    # half of the sessions start with a failing request (and :abort): a failed run must not change what eval-up-to does
+    pre = []
+    if case["seed"] % 2 == 1:
+        pre = [core.run_req("verif_nosuch_variable", 2), core.run_req(":abort", 3)]
+    reqs = pre + [core.run_req(src, 1, path)] + \
+        [{"method": "eval_up_to", "path": path, "src": src, "offset": off, "id": 100 + i} for i, (_, _, _, off) in enumerate(probes)] + \
+        [{"method": "eval_up_to", "path": path, "src": src, "offset": sp[0], "id": 500 + i} for i, (_, sp, _) in enumerate(for_probes)]
     r, resps = core.json_session_file(reqs, timeout=90, scratch=sc)
     answers = [x for x in resps if session.resp_kind(x) not in ("printed", "printed_stderr")]
+    answers = answers[len(pre):]
+    for_answers = answers[1 + len(probes):]
+    answers = answers[:1 + len(probes)]
     detail = {"src": src}
     if r.cls in core.CRASH:
         n_ok = max(0, len(answers) - 1)
@@ -229,6 +256,14 @@ def run_case(case, sc):
     if first[0] != "ok":
         return {"status": "inconclusive", "key": None, "detail": dict(detail, first=first[:2])}
     keys = set()
+    if len(for_answers) == len(for_probes):
+        for (n, sp, want), ans in zip(for_probes, for_answers):
+            sa = session.summarize(ans)
+            d = dict(detail, probe={"kind": "for-variable", "span": list(sp), "text": src[sp[0]:sp[1]], "after_failed_request": bool(pre)},
+                     expected=want, observed=sa[:2])
+            if sa[0] != "ok" or sa[1] != want:
+                return {"status": "violated", "key": None, "sig": "wrong-value:for-variable", "detail": d}
+            keys.add("for-variable|%s" % ("after-failed-request" if pre else "fresh"))
     in_mf = mf_lambda_nodes(pr["main"])
     # probes inside map/filter lambdas are also put through the command line (`reftest-eval-up-to`, caret comment)
     cli = [q for q in probes if id(q[0]) in in_mf]
